@@ -18,7 +18,7 @@ func init() { h.Register("C05", runC05) }
 // c05Schema builds schemas that cross the storage thresholds: ids around 256, maps around 16 entries.
 func c05Value(cs *h.Case) (*gen.Schema, *tref.Val) {
 	if cs.R.Chance(50) {
-		sc := gen.GenSchema(cs.R, gen.Cfg{MaxDepth: 3, MaxFields: 6, StructKeys: cs.R.Chance(30), BigIDs: true, Recursive: true})
+		sc := gen.GenSchema(cs.R, gen.Cfg{MaxDepth: 3, MaxFields: 6, StructKeys: cs.R.Chance(30), BigIDs: true, Recursive: true, SharedNames: cs.R.Bool()})
 		v := gen.GenVal(cs.R, structType(sc.Root), gen.ValCfg{NonFinite: true, InvalidUTF8: true, ShuffleFlds: cs.R.Bool()}, 0)
 		return sc, v
 	}
